@@ -163,6 +163,12 @@ pub struct Posting {
     pub state: Option<char>,
     pub amount: Option<Expr>,
     pub lot: Option<Exchange>,
+    /// lot date `[2024/01/05]` and / or lot note `(text)`: annotations without any value
+    #[serde(default)]
+    pub lot_extra: Vec<String>,
+    /// the annotations come before the lot price instead of after it
+    #[serde(default)]
+    pub lot_extra_first: bool,
     pub cost: Option<Exchange>,
     pub assertion: Option<Expr>,
     pub comment: Option<String>,
@@ -177,6 +183,8 @@ impl Posting {
             state: None,
             amount: None,
             lot: None,
+            lot_extra: Vec::new(),
+            lot_extra_first: false,
             cost: None,
             assertion: None,
             comment: None,
@@ -209,11 +217,23 @@ impl Posting {
             }
             if let Some(a) = &self.amount {
                 s.push_str(&a.render());
+                if self.lot_extra_first {
+                    for x in &self.lot_extra {
+                        s.push(' ');
+                        s.push_str(x);
+                    }
+                }
                 if let Some(l) = &self.lot {
                     if l.total {
                         s.push_str(&format!(" {{{{{}}}}}", l.expr.render()));
                     } else {
                         s.push_str(&format!(" {{{}}}", l.expr.render()));
+                    }
+                }
+                if !self.lot_extra_first {
+                    for x in &self.lot_extra {
+                        s.push(' ');
+                        s.push_str(x);
                     }
                 }
                 if let Some(c) = &self.cost {
